@@ -5,6 +5,7 @@ import Pfl.Oracle.LangEquiv
 import Pfl.Oracle.RegOps
 import Pfl.Model.Names
 import Pfl.Model.Minimize
+import Pfl.Model.Hopcroft
 open Lean Pfl
 namespace PflDrv
 
@@ -136,6 +137,13 @@ def faHandle (op : String) (j : Json) : R Json := do
   | "fa.nerode" =>
     let A ← asENFA (← field j "A")
     match A.nerodeGroups bigFuel with
+    | none => throw "fuel"
+    | some gs => pure (jList (jList (jOpt jNat)) gs)
+  | "fa.hopcroft" =>
+    let A ← asENFA (← field j "A")
+    let order ← asNatList (← field j "order")
+    let symorder ← asNatList (← field j "symorder")
+    match ({ A with states := order, syms := symorder } : ENFA Nat).hopcroft bigFuel with
     | none => throw "fuel"
     | some gs => pure (jList (jList (jOpt jNat)) gs)
   | "fa.minimize" =>
